@@ -21,7 +21,8 @@ import t1
 import vlib
 from emit import Q2
 
-PROPS = ["TfelVerif.C25.PropsGen", "TfelVerif.C25.Props"]
+PROPS = ["TfelVerif.C25.PropsGen", "TfelVerif.C25.PropsHS", "TfelVerif.C25.PropsTensors",
+         "TfelVerif.C25.PropsTensors2", "TfelVerif.C25.Props"]
 PROPS_HEAVY = ["TfelVerif.C25.PropsHeavy"]
 EXC = ["/src/Exception/ContractViolation.cxx", "/src/Exception/TFELException.cxx",
        "/src/Math/LUException.cxx", "/src/Math/MathException.cxx"]
@@ -450,7 +451,10 @@ def run(ck):
     emit_units([byname[n] for n in SHARED], "TfelVerif.C25.GenHeavy", tmp, with_paths=False)
     ck.write_gen("TfelVerif/C25/GenHeavy.lean", open(tmp).read())
     props = PROPS + ([] if ck.quick else PROPS_HEAVY)
-    res = ck.lean(props, props)
+    # the Lean build runs while the exact evaluation below is carried out
+    from concurrent.futures import ThreadPoolExecutor
+    pool = ThreadPoolExecutor(max_workers=1)
+    lean_job = pool.submit(ck.lean, props, props)
 
     # ---- exact evaluation at seeded random rational points, re-tracing so that the path is the real one
     rng = random.Random(ck.seed)
@@ -490,7 +494,6 @@ def run(ck):
                 # replay on the real code in double precision: shadow of the output node at this input
                 shp = ck.write("replay_%s.txt" % name, shadow_text({name: env}))
                 try:
-                    uu = None
                     txt = run_tracers(ck, bins, shp)
                     mm = re.search(r"unit %s\n(.*?)end %s\n" % (re.escape(name), re.escape(name)), txt, re.S)
                     shn, outs = {}, {}
@@ -506,26 +509,31 @@ def run(ck):
                     r["replay_error"] = repr(e)
                 found[name] = r
     stats["distinct_paths"] = {k: len(v) for k, v in sorted(paths.items()) if len(v) > 1}
+    res = lean_job.result()
+    pool.shutdown()
 
     def family(n):
         return re.sub(r"(_n\d|_p\d|_EN|_KG|_gt|_lt|_e1|_def|_f0|_gen|_sph)+$", "", n)
+    used = set()
     if not res.ok:
         def search(fl):
             thm = fl.get("theorem") or ""
             for n in sorted(found, key=len, reverse=True):
-                if thm.startswith(n) or n.startswith(thm):
+                if thm.startswith(n) or n.startswith(thm) or (family(n) and thm.startswith(family(n))):
+                    used.add(n)
                     return found[n]
-            for n in found:
-                if family(n) and thm.startswith(family(n)):
-                    return found[n]
+            if thm.startswith("MT_eq_HS"):
+                for n in found:
+                    if n.startswith(("SphMT", "HS3_n2")):
+                        used.add(n)
+                        return found[n]
             return None
         ck.lean_violations(res, search)
-        reported = {v[0] for v in ck.violations}
     for n, r in found.items():
-        if res.ok or n.startswith(XONLY_PREFIX) or True:
-            key = "exact:" + n
-            ck.violation(key, "traced unit %s (current sources) disagrees with the closed-form reference at an exact rational input: "
-                         "output %s = %s, expected %s" % (n, r["output"], r["code_value"], r["spec_value"]), r, True)
+        if n in used:
+            continue
+        ck.violation("exact:" + n, "traced unit %s (current sources) disagrees with its closed-form reference at an exact rational "
+                     "input: output %s = %s, expected %s" % (n, r["output"], r["code_value"], r["spec_value"]), r, True)
     if ck.tier == "thorough" and res.ok:
         for m, log in ck.leanchecker(PROPS):
             ck.violation("leanchecker:" + m, "leanchecker rejects " + m, {"log": log}, False)
